@@ -117,8 +117,11 @@ class TapMixin:
                 else:
                     self.name(event, 'until@%d' % (self.G + 1))
             lb = self.label(event)
+            due = now + delay
+            if due < now and not delay < 0:
+                due = now           # int clock + float delay rounded below the clock: nothing is ever due in the past
             self.log.append(('T', self.tick(), lb, kind, now, delay, int(priority),
-                             self.step_no if self.in_step else None, now + delay))
+                             self.step_no if self.in_step else None, due))
             cbs = event.callbacks
             if self.probe_enabled and isinstance(cbs, list) and self._probe not in cbs:
                 cbs.insert(0, self._probe)
